@@ -220,3 +220,92 @@ func ValidateDone(o tlc.Opts, b *Batch) ([]int, tlc.Result) {
 	}
 	return missing, res
 }
+
+// split cuts the batch into sub-batches of at most maxLines lines (always at trace boundaries).
+func (b *Batch) split(maxLines int) ([]*Batch, [][]int) {
+	var subs []*Batch
+	var maps [][]int
+	cur := &Batch{}
+	var curMap []int
+	for i := range b.starts {
+		tr := b.Trace(i)
+		if cur.Lines() > 0 && cur.Lines()+len(tr) > maxLines {
+			subs, maps = append(subs, cur), append(maps, curMap)
+			cur, curMap = &Batch{}, nil
+		}
+		cur.AppendTrace(tr)
+		curMap = append(curMap, i)
+	}
+	if cur.Lines() > 0 {
+		subs, maps = append(subs, cur), append(maps, curMap)
+	}
+	return subs, maps
+}
+
+// MaxLinesPerRun bounds the size of one TLC trace-validation run (TLC's Json module and the
+// per-run initial states do not scale to tens of millions of lines).
+const MaxLinesPerRun = 400_000
+
+// ValidateChunked is Validate over sub-batches of at most MaxLinesPerRun lines; trace indices
+// in the result refer to the whole batch.  The returned Result is the last run's, with the
+// distinct/generated counts summed; it is not OK if any run was not OK.
+func ValidateChunked(o tlc.Opts, b *Batch) ([]Reject, tlc.Result) {
+	if b.Lines() <= MaxLinesPerRun {
+		return Validate(o, b)
+	}
+	subs, maps := b.split(MaxLinesPerRun)
+	var all []Reject
+	var agg tlc.Result
+	agg.OK = true
+	for i, sb := range subs {
+		oo := o
+		oo.Files = nil
+		oo.Args = append([]string{}, o.Args...)
+		rs, res := Validate(oo, sb)
+		agg.Distinct += res.Distinct
+		agg.Generated += res.Generated
+		agg.Wall += res.Wall
+		if !res.OK {
+			agg.OK = false
+			agg.What = res.What
+			agg.Output = res.Output
+			agg.TimedOut = res.TimedOut
+		}
+		for _, r := range rs {
+			r.Trace = maps[i][r.Trace]
+			all = append(all, r)
+		}
+	}
+	return all, agg
+}
+
+// ValidateDoneChunked is ValidateDone over sub-batches (see ValidateChunked).
+func ValidateDoneChunked(o tlc.Opts, b *Batch) ([]int, tlc.Result) {
+	if b.Lines() <= MaxLinesPerRun {
+		return ValidateDone(o, b)
+	}
+	subs, maps := b.split(MaxLinesPerRun)
+	var all []int
+	var agg tlc.Result
+	agg.OK = true
+	for i, sb := range subs {
+		oo := o
+		oo.Files = nil
+		oo.Args = append([]string{}, o.Args...)
+		ms, res := ValidateDone(oo, sb)
+		agg.Distinct += res.Distinct
+		agg.Generated += res.Generated
+		agg.Wall += res.Wall
+		if !res.OK {
+			agg.OK = false
+			agg.What = res.What
+			agg.Output = res.Output
+			agg.TimedOut = res.TimedOut
+			continue
+		}
+		for _, m := range ms {
+			all = append(all, maps[i][m])
+		}
+	}
+	return all, agg
+}
